@@ -358,7 +358,17 @@ def check_memo_keys(ctx, fi, rule='R-MEMO/key-complete'):
         local_cache = isinstance(b, ast.Name) and b.id in creations
         attr_cache = isinstance(b, ast.Name) and b.id == 'self' \
             and isinstance(tg.value, ast.Attribute)
-        if not (local_cache or attr_cache):
+        # a module-level container lives as long as the process: every
+        # parameter of the function varies during its life
+        gv = fi.module.globals.get(b.id) if isinstance(b, ast.Name) else None
+        global_cache = (not local_cache and isinstance(b, ast.Name)
+                        and b.id not in params and gv is not None and (
+                            (isinstance(gv, ast.Dict) and not gv.keys)
+                            or (isinstance(gv, ast.Call) and isinstance(
+                                gv.func, ast.Name)
+                                and gv.func.id in ('dict', 'OrderedDict')
+                                and not gv.args)))
+        if not (local_cache or attr_cache or global_cache):
             continue
         memo = False
         for g in _enclosing(st, (ast.If,)):
